@@ -1041,8 +1041,9 @@ def _run_case(spec):
                             "triangulation: the work-list cannot cross a hole, a point in or next to the gap gets a cavity that is not "
                             "star-shaped")
             fail(cl, det, k)
-    if not fails and kept:
+    if not fails and kept and not audit.structure(tri):
         # ... and consuming the reports (a caller may pop from the sets it was given) must not touch the triangulation
+        # (only when the incidence tables are intact before: a history cut short by a misused hint may end broken)
         for d_obj, a_obj, _, _, _ in kept:
             for o_ in (d_obj, a_obj):
                 if isinstance(o_, set):
